@@ -28,7 +28,7 @@ INITS = [{'theta': [0.0, 'rad'], 'w': [0.0, 'rad/s']},
          {'theta': [0.5, 'rad'], 'w': [3.0, 'rad/s']},
          {'theta': [-1.0, 'rad'], 'w': [-2.0, 'rad/s']},
          {'theta': [45.0, 'deg'], 'w': [20.0, 'rpm']}]
-SCHEDULES = ['run', 'run+continue', 'stop', 'reset-rerun', 'reset-reinit-other-units', 'redeclare-then-continue', 'coast']
+SCHEDULES = ['run', 'run+continue', 'stop', 'reset-rerun', 'reset-reinit-other-units', 'redeclare-then-continue', 'coast', 'rehome-while-held', 'two-solvers']
 
 
 def shards(tier):
@@ -61,6 +61,19 @@ def schedule_ops(name, spec, duty=None):
         return [('run', DT, [1.0, 'sec'], duty, ['encoder', n - 1, '>=', [0.3, 'rad']])]
     if name == 'reset-rerun':
         return [('run', DT, [0.5, 'sec'], duty, None), ('reset',), ('run', DT, [0.5, 'sec'], duty, None)]
+    if name in ('rehome-while-held', 'two-solvers'):
+        if not sim.chain_ref(spec).self_locking:
+            return None
+        park = [1, 1, 0, 0, 0, 0]
+        drive = [1, 1, 0, 0, 0, 0, 1, 1, 1, 0, 0, 1, 1, 1, 1, 1, 1, 1]
+        if name == 'rehome-while-held':
+            # the chain is parked (duty 0, held); the user sets the output position by hand (no reset); the same Solver continues
+            return [('run', DT, [0.5, 'sec'], park, None),
+                    ('reinit', {'theta': [0.0, 'rad'], 'w': [0.0, 'rad/s']}),
+                    ('run', DT, [0.75, 'sec'], drive, None)]
+        # solver 0 parks the chain, solver 1 drives it, solver 0 continues
+        return [('run', DT, [0.5, 'sec'], park, None), ('solver', 1), ('run', DT, [0.5, 'sec'], drive, None),
+                ('solver', 0), ('run', DT, [0.5, 'sec'], drive, None)]
     if name == 'coast':
         # motor with current data switched off (duty 0, then inside the dead band) and no load: every torque and acceleration exactly 0
         return [('run', DT, [0.75, 'sec'], [1, 1, 0, 0, 0.02, 0.02, 1], None)]
@@ -80,7 +93,7 @@ def schedule_ops(name, spec, duty=None):
 
 def check_case(acc, chain_l, locking, load, init, sched, overload=False):
     chain_l = [tuple(x) for x in chain_l]
-    spec = menu.assign(chain_l, locking=locking, init=init, motor=menu.MOTOR_CUR if sched == 'coast' else None)
+    spec = menu.assign(chain_l, locking=locking, init=init, motor=menu.MOTOR_CUR if sched in ('coast', 'rehome-while-held', 'two-solvers') else None)
     stall = menu.stall_at_output(spec)
     spec['load'] = load_spec(load[0], load[1] * (20 if overload else 1), stall)
     if sched == 'coast':
@@ -120,7 +133,7 @@ def check_case(acc, chain_l, locking, load, init, sched, overload=False):
             d = dict(detail)
             d['instant'] = k
             d['chain'] = name
-            acc.violation(f'C01/{sfx}' + (f'/{sched}' if sched in ('reset-reinit-other-units', 'redeclare-then-continue', 'coast') else ''), clause, case, d)
+            acc.violation(f'C01/{sfx}' + (f'/{sched}' if sched in ('reset-reinit-other-units', 'redeclare-then-continue', 'coast', 'rehome-while-held', 'two-solvers') else ''), clause, case, d)
         acc.transitions += traj.coupling(obs, chain, emit)
         nk = len(obs['time'])
         for k in range(nk):
